@@ -341,13 +341,20 @@ def run(ctx):
             for x in metas[m]:
                 if x["id"] == "meta|programs" and sorted(x["introspection"]) != sorted(x["source"]):
                     raise HarnessError("decorated functions in the source %s != objects with .py_func %s" % (sorted(x["source"]), sorted(x["introspection"])))
-        if prog and (prog[0]["missing_inputs"] or prog[0]["stale_inputs"]):
-            raise HarnessError("kernels without an input lattice: %s; lattices without a kernel: %s" % (prog[0]["missing_inputs"], prog[0]["stale_inputs"]))
+        # A kernel this check has no input lattice for (added to the library after the check was written), or a lattice whose
+        # kernel is gone, is a GAP in coverage, not a fault of the library: it is reported (notice line, coverage field,
+        # exhaustive: false); the new kernel is still executed under bounds checking wherever a public entry point reaches it.
+        gap_missing = list(prog[0]["missing_inputs"]) if prog else []
+        gap_stale = list(prog[0]["stale_inputs"]) if prog else []
+        if gap_missing or gap_stale:
+            print("NOTICE property=C17 kernels without an input lattice (not enumerated directly): %s; lattices without a kernel: %s"
+                  % (gap_missing, gap_stale), flush=True)
         filtered = bool(os.environ.get("VERIF_C17_FILTER", "").strip())
         if filtered:
             ctx.notes.append("VERIF_C17_FILTER=%s: partial run (development aid), not exhaustive" % os.environ["VERIF_C17_FILTER"])
-        if sorted(st["programs"]) != sorted(src) and not filtered:
-            raise HarnessError("kernels enumerated %d != @jit functions in the source %d" % (len(st["programs"]), len(src)))
+        if sorted(set(st["programs"]) | set(gap_missing)) != sorted(src) and not filtered:
+            raise HarnessError("kernels enumerated %d (+%d without a lattice) != @jit functions in the source %d"
+                               % (len(st["programs"]), len(gap_missing), len(src)))
         ctx.extend(viol)
         ent = [x for x in metas["nojit"] if x["id"] == "meta|entries"]
         uncovered = {"Arm": ent[0]["arm_uncovered"], "SP": ent[0]["sp_uncovered"]} if ent else {}
@@ -362,7 +369,8 @@ def run(ctx):
             "evaluations": st["evaluations"] * 3, "distinct_nontrivial": len(st["keys"]),
             "rule": "one evaluation = one case in one mode; distinct = kernel cases with a distinct memory picture of their arguments "
                     "(dtype, shape, strides, contiguity, parent array, values) plus entry-point cases measured (interpreter profile) to reach at least one kernel",
-            "programs": len(st["programs"]), "cases_per_mode": st["evaluations"], "exhaustive": not any(died.values()) and not filtered,
+            "programs": len(st["programs"]), "cases_per_mode": st["evaluations"], "exhaustive": not any(died.values()) and not filtered and not gap_missing,
+            "kernels_without_input_lattice": gap_missing, "lattices_without_kernel": gap_stale,
             "entry_points": len(st["entries"]), "entry_points_reaching_no_kernel": sorted(st["trivial_entries"] - set(st["reach"])),
             "outcomes": st["outcomes"], "per_mode": per_mode, "rejected_layouts": dict(sorted(st["rejected"].items())),
             "same_exception_all_modes": dict(sorted(st["same_exception"].items())),
